@@ -269,6 +269,43 @@ def run(ctx):
                                 key="c04-data-if-receive", expected=fresh[:12], observed=via[:12])
                 break
         ctx.count("datagrams_through_DATAInterface", nvia)
+        # the step in between on the way towards L1: TxMsg.trans(ver = the RECIPIENT's version) - the Rx message must carry exactly the
+        # requested version (0 included), the sender's frame and timeslot, and the bits mapped 0 -> +127 / 1 -> -127; for version 0 the
+        # datagram built from it is one trxcon accepts with those values
+        D = U.toolkit()
+        ntr = 0
+        tcases = []
+        for j, octets in (list(sent) + own)[:300 if quick else 3000]:
+            t = D.TxMsg()
+            try:
+                t.parse_msg(bytearray(octets))
+            except Exception:  # noqa
+                continue
+            if t.burst is None or len(t.burst) not in (148, 444):
+                continue
+            for target in (0, 1):
+                r = t.trans(ver=target)
+                ntr += 1
+                want_bits = [(-127 if b else 127) for b in t.burst]
+                got = (r.ver, r.fn, r.tn, list(r.burst) if r.burst is not None else None)
+                if got != (target, t.fn, t.tn, want_bits):
+                    ctx.oracle_fail("TxMsg.trans(ver=%d) of a version-%d burst gives an Rx message of version %d (frame %s / %s, timeslot %s / %s): what goes towards the recipient's L1 is not in the recipient's version"
+                                    % (target, t.ver, r.ver, r.fn, t.fn, r.tn, t.tn), dict(octets=list(octets[:8]), source_version=t.ver, requested=target),
+                                    key="c04-trans-version", expected=(target, t.fn, t.tn), observed=got[:3])
+                    break
+                if target == 0 and t.fn < H:
+                    r.rssi, r.toa256 = -60, 0
+                    try:
+                        tcases.append((t, list(r.gen_msg(True))))
+                    except ValueError:
+                        pass
+        cobs2 = T.c_data_rx([d for _, d in tcases]) if tcases else []
+        for (t, d), o in zip(tcases, cobs2):
+            if o.get("crash") or o.get("rc") != "OK" or not o.get("called") or (o["tn"], o["fn"]) != (t.tn, t.fn):
+                ctx.oracle_fail("trxcon does not deliver (or delivers with another frame / timeslot) the version-0 datagram built from a forwarded burst",
+                                dict(source_version=t.ver, fn=t.fn, tn=t.tn, datagram_head=d[:8], rc=o.get("rc")), key="c04-forwarded-py-to-c")
+                break
+        ctx.count("trans_to_recipient_version", ntr)
     finally:
         _logging.disable(_saved_disable)
     for j, (tn, fn, pwr, bits) in enumerate(reqs):
